@@ -90,6 +90,18 @@ func (hs *ChainedHotStuff) VoteRule(_ hotstuff.View, proposal hotstuff.ProposeMs
 	hash := block.QuorumCert().BlockHash()
 	qcBlock, haveQCBlock := hs.blockchain.Get(hash)
 
+	// Voting for the block obliges the replica to lock on the block certified by qcBlock's
+	// QC (CommitRule does that). If that block is neither stored nor obtainable from the
+	// other replicas, the lock cannot be updated, and a later vote could contradict this one.
+	if haveQCBlock {
+		if h := qcBlock.QuorumCert().BlockHash(); h != (hotstuff.Hash{}) {
+			if _, ok := hs.blockchain.Get(h); !ok {
+				hs.logger.Debug("VoteRule: block to lock on is not available")
+				return false
+			}
+		}
+	}
+
 	safe := false
 	if haveQCBlock && qcBlock.View() > hs.bLock.View() {
 		safe = true
